@@ -65,6 +65,10 @@ for n in (1, 2, 3, 4, 6, 8, 16):
     k("search_index_n%d" % n, *TL, ["C01"], "lemma", function="prepare_frame (index part)", clause="binary search by total_cmp on sorted valid positions (repeats allowed) yields hint_ok",
       bound="boundary_times.len() == %d" % n)
     K[-1]["omit_contracts"] = OM
+for n in (1, 2, 3, 4, 8, 16, 64):
+    k("bsearch_contract_n%d" % n, *TL, ["C01"], "lemma", tier=("thorough" if n == 64 else "quick"), function="slice::binary_search_by (std, as called by prepare_frame)", clause="A7 cross-check: Ok(i) => bt[i]==x in float order; Err(i) => bt[..i] <= x <= bt[i..] (the contract route V assumes), on the real std search",
+      bound="boundary_times.len() == %d" % n)
+    K[-1]["omit_contracts"] = OM
 k("repeat_order", *TL, ["C12"], "contract", function="Repeat::{cmp,partial_cmp,as_ordinal}", clause="total order None<=Times(n)<=Infinite")
 K[-1]["omit_contracts"] = OM
 for n in range(6):
@@ -109,6 +113,7 @@ k("canary_must_fail", *AN, ["C04", "C05", "C06", "C07"], "canary", timeout=600)
 K[-1]["flags"] = ANF
 DUR = ("verif_dur", "mina_core", "core/src/verif_dur.rs")
 k("std_from_secs_f32_zero", *DUR, ["C06"], "lemma", function="std Duration::from_secs_f32", clause="from_secs_f32(0) == ZERO (executed, not assumed)")
+k("dur_add_monotone", *DUR, ["C06"], "lemma", function="f32 addition (as used by std Duration::as_secs_f32)", clause="A4' piece: for integer seconds s < 2^23 and 0 <= x <= y <= 1: fl(s+x) <= fl(s+y), fl(s+0)==s, fl(s+1)==s+1, s<t => s+1 <= t (all exact in f32)")
 
 BV = ("verif", "bevy_extract", "src/lib.rs")
 A6 = "A6 Bevy ECS replaced by shims (one entity, recording event writer, symbolic Time::delta)"
